@@ -702,9 +702,10 @@ def run(ck):
             s, o = pairs[by_sig[sig][0]]
             ck.drifted(f"unconfirmed rejection class {sig} ({len(by_sig[sig])} scenarios), e.g. {scn_line(s)}")
     for sig, (s, o, whys, reruns) in sorted(confirmed.items()):
+        short = lambda ls: [re.sub(r" p+$", " <pad>", l) for l in ls]
         snap = [e["lines"] for e in o["events"] if e["e"] == "StopRet"]
-        seen = f"file when stop() returned {snap[-1]}" if whys[0][1] == "stopret" and snap else \
-            f"status {o['status']}, file at process end {o['lines']}"
+        seen = f"file when stop() returned {short(snap[-1])}" if whys[0][1] == "stopret" and snap else \
+            f"status {o['status']}, file at process end {short(o['lines'])}"
         ck.violation(sig, f"{scn_line(s)} -> {seen}: {whys[0][0]}",
                      {"scenario": scn_line(s), "harness": "h_life", "observation": o, "trace": trace_of(o, s["attrs"]["wait"]),
                       "contract_says": [w[0] for w in whys], "reruns": [{"status": r["status"], "lines": r["lines"]} for r in reruns],
